@@ -40,7 +40,7 @@ def generate(seed, tier, k):
     mu = gen.rfloat(r, 0.5, 2.0)
     if mode == "condensed":
         dim = r.choice([2, 3])
-        mesh = gen.gen_mesh(r, dim=dim, allow=("linear",), max_cells=8)
+        mesh = gen.gen_mesh(r, dim=dim, allow=("linear", "linear", "quadratic"), max_cells=8 if dim == 2 else 4)
         fkind = "Field" if dim == 3 else r.choice(["PlaneStrain", "Axi"])
         bulk = round(mu * r.choice([5.0, 20.0, 100.0, 1000.0, 5000.0]), 3)
         doc["items"] = [{"type": "SolidBodyNearlyIncompressible", "umat": {"name": "NeoHooke", "p": {"mu": mu}}, "bulk": bulk}]
